@@ -7,6 +7,7 @@ import tagref
 import props.c02 as c02
 
 PROP = "C09"
+CONSTS = ['mem']          # constant tables of the models this property depends on
 RULE = ("histories of ACCEPTED accesses (counted/uncounted reads, writes, direct preloads) on random geometries, both write and "
         "replacement policies, penalties 0-5, with the real policy in the model (stats after every op, full dump at the end); plus "
         "programs with aligned accesses run in both pipeline modes with a data cache (counters compared between the modes and with "
